@@ -88,7 +88,12 @@ class PreprocessorHexagon:
                 i += 1
                 continue
             try:
-                res[i] = re.sub(r"\\\s*$", " ", res[i]).strip() + res.pop(i + 1)
+                head = re.sub(r"\\\s*$", "", res[i])
+                tail = res.pop(i + 1)
+                # White space before the backslash separates tokens (C splices the lines
+                # and keeps it). It is only needed if the next line is not indented.
+                sep = " " if head[-1:].isspace() and not tail[:1].isspace() else ""
+                res[i] = head.strip() + sep + tail
             except IndexError:
                 raise IndexError(f'Last line in macro file ends with a "\\": {res[i]}.')
 
